@@ -55,6 +55,13 @@ var AllScenarios = func() []Scenario {
 			}
 		}
 	}
+	// usurpation (U=1): the Byzantine node is not the elected leader of the round but proposes with a replayed election certificate
+	// (the usurper completes its round / withholds its PRECOMMIT / lets its COMMIT reach nobody)
+	for _, l := range []int{3, 1} {
+		for _, x := range []pq{{0, 0, 0}, {0, 3, 0}, {0, 0, 1}} {
+			out = append(out, Scenario{P: x.p, Q1: x.q1, Q2: x.q2, L: l, U: 1})
+		}
+	}
 	return out
 }()
 
@@ -85,19 +92,20 @@ type Info struct {
 	LeaderStay int // leader if no bump
 	LeaderBump int // leader after a bump
 	Byz        int
+	ByzElect   bool // the adversary holds an election certificate of an earlier round of the current root height that names the Byzantine node
 }
 
 func (i Info) String() string {
-	return fmt.Sprintf("%v,%v,%d,%d,%d,%d", i.Terminal, i.HasLock, i.NCerts, i.LeaderStay, i.LeaderBump, i.Byz)
+	return fmt.Sprintf("%v,%v,%d,%d,%d,%d,%v", i.Terminal, i.HasLock, i.NCerts, i.LeaderStay, i.LeaderBump, i.Byz, i.ByzElect)
 }
 
 func ParseInfo(s string) Info {
 	p := strings.Split(s, ",")
-	if len(p) != 6 {
+	if len(p) != 7 {
 		return Info{}
 	}
 	a := func(x string) int { n, _ := strconv.Atoi(x); return n }
-	return Info{Terminal: p[0] == "true", HasLock: p[1] == "true", NCerts: a(p[2]), LeaderStay: a(p[3]), LeaderBump: a(p[4]), Byz: a(p[5])}
+	return Info{Terminal: p[0] == "true", HasLock: p[1] == "true", NCerts: a(p[2]), LeaderStay: a(p[3]), LeaderBump: a(p[4]), Byz: a(p[5]), ByzElect: p[6] == "true"}
 }
 
 func (w *World) Info() Info {
@@ -117,6 +125,7 @@ func (w *World) Info() Info {
 	if !in.Terminal {
 		in.LeaderStay = w.PredictLeader(rh, round)
 		in.LeaderBump = w.PredictLeader(rh+1, 0)
+		in.ByzElect = w.oldElection(rh, round) != nil
 	}
 	return in
 }
@@ -160,7 +169,10 @@ func OpsFor(in Info, reduced bool) []int {
 		if in.Byz < 0 && (s.V > 0 || s.L > 0) {
 			continue
 		}
-		if s.L > 0 && leader != in.Byz {
+		if s.U == 0 && s.L > 0 && leader != in.Byz {
+			continue
+		}
+		if s.U > 0 && (!in.ByzElect || leader == in.Byz || s.Bump) {
 			continue
 		}
 		if s.L >= 1 && s.L <= 2 && s.L-1 >= in.NCerts {
@@ -254,16 +266,42 @@ func Exec(cfgName string, cfg Config, path []int) mc.ExecResult {
 // C15: synchronous tail from an adversarial prefix.
 
 // Tail runs default rounds (everything delivered in time) with the Byzantine node silent
-// (mode 0) or honest (mode 1) until an honest node commits; returns the rounds needed or -1.
+// (mode 0), honest (mode 1) or actively obstructing (mode 2) until an honest node commits; returns the rounds needed or -1.
 func (w *World) Tail(mode, maxRounds int) int {
-	for r := 1; r <= maxRounds; r++ {
+	// mode 2 counts only the rounds whose ELECTED leader is honest (the adversary may waste its own rounds,
+	// that is bounded by the sortition); the total is capped so that the tail terminates
+	total := maxRounds
+	if mode == 2 {
+		total = 4 * maxRounds
+	}
+	counted := 0
+	for r := 1; r <= total && counted < maxRounds; r++ {
 		before := len(w.Commits)
 		w.silent = mode == 0 && w.Cfg.Byz >= 0
-		w.RunRound(Scenario{})
+		sc := Scenario{}
+		counted++
+		if mode == 2 {
+			// an ACTIVE adversary after GST: elected, it proposes and withholds its PRECOMMIT; not elected but
+			// holding an election certificate of an earlier round, it usurps the round the same way
+			in := w.Info()
+			switch {
+			case in.LeaderStay == in.Byz:
+				sc = Scenario{L: 3, Q1: 3}
+				counted--
+			case in.ByzElect:
+				sc = Scenario{U: 1, L: 3, Q1: 3}
+			}
+		}
+		if !w.RunRound(sc) {
+			w.RunRound(Scenario{})
+		}
 		w.silent = false
 		for _, c := range w.Commits[before:] {
 			if w.Honest(c.Node) {
-				return r
+				if counted == 0 {
+					return 1
+				}
+				return counted
 			}
 		}
 	}
